@@ -11,8 +11,8 @@ use crate::parser::position::Position;
 use crate::parser::visitor::Visitor;
 use crate::{msgcode, msgtext};
 
-pub(crate) fn check_unused_variables(items: &[ToplevelItem]) -> Vec<Diagnostic> {
-    let mut visitor = UnusedVariableVisitor::new();
+pub(crate) fn check_unused_variables(items: &[ToplevelItem], src: Option<&str>) -> Vec<Diagnostic> {
+    let mut visitor = UnusedVariableVisitor::new(src);
     for item in items {
         visitor.visit_toplevel_item(item);
     }
@@ -64,6 +64,9 @@ enum UnusedVarFix {
 }
 
 struct UnusedVariableVisitor {
+    /// The source of the file being checked, if known. Used to find
+    /// syntax that has no position in the AST.
+    src: Option<String>,
     /// For each scope, the variables defined, the definition
     /// positions, and whether they have been used afterwards.
     ///
@@ -108,8 +111,9 @@ struct UnusedTypeParam {
 }
 
 impl UnusedVariableVisitor {
-    fn new() -> UnusedVariableVisitor {
+    fn new(src: Option<&str>) -> UnusedVariableVisitor {
         UnusedVariableVisitor {
+            src: src.map(|s| s.to_owned()),
             bound_scopes: vec![vec![]],
             file_bindings: FxHashMap::default(),
             unused: vec![],
@@ -296,6 +300,24 @@ impl UnusedVariableVisitor {
         }
     }
 
+    /// Find the `<` that opens the type parameters whose first
+    /// parameter is at `first_pos`. Returns its offset, line number
+    /// and column.
+    fn open_angle_bracket(&self, first_pos: &Position) -> Option<(usize, usize, usize)> {
+        let src = self.src.as_ref()?;
+        let before = src.get(..first_pos.start_offset)?;
+        let lt_offset = before.rfind('<')?;
+
+        let newlines_between = before[lt_offset..].matches('\n').count();
+        let line_start = before[..lt_offset].rfind('\n').map(|i| i + 1).unwrap_or(0);
+
+        Some((
+            lt_offset,
+            first_pos.line_number.checked_sub(newlines_between)?,
+            lt_offset - line_start,
+        ))
+    }
+
     /// Process type parameters after visiting a function, generating
     /// removal positions for unused ones.
     fn process_unused_type_params(
@@ -338,15 +360,25 @@ impl UnusedVariableVisitor {
                 // Remove entire <...> section. The `<` is right before the first
                 // type param, and `>` is right after the last one (before open paren).
                 let first_tp = &params[0].0;
-                let last_tp = &params[params.len() - 1].0;
+
+                // The `<` is normally the character before the first
+                // type parameter, but there may be whitespace or a
+                // newline in between: find it in the source.
+                let (lt_offset, lt_line_number, lt_column) = self
+                    .open_angle_bracket(&first_tp.position)
+                    .unwrap_or((
+                        first_tp.position.start_offset - 1,
+                        first_tp.position.line_number,
+                        first_tp.position.column.saturating_sub(1),
+                    ));
+
                 Position {
-                    // Start at `<` which is one char before the first type param
-                    start_offset: first_tp.position.start_offset - 1,
+                    start_offset: lt_offset,
                     // End at `>` which is right before the open paren
                     end_offset: open_paren.start_offset,
-                    line_number: first_tp.position.line_number,
-                    end_line_number: last_tp.position.end_line_number,
-                    column: first_tp.position.column.saturating_sub(1),
+                    line_number: lt_line_number,
+                    end_line_number: open_paren.line_number,
+                    column: lt_column,
                     end_column: open_paren.column,
                     path: Rc::clone(&tp.position.path),
                     vfs_path: tp.position.vfs_path.clone(),
